@@ -19,13 +19,15 @@ import (
 type CKind int
 
 const (
-	CBot   CKind = iota // not (yet) reached
-	CConst              // a constant of basic type
-	CNil                // the nil value of a pointer/interface/slice/map/func type
-	CType               // a non-nil interface value whose dynamic type is T (contents unknown)
-	CTuple              // multiple results
-	CSym                // an opaque symbol standing for a caller-supplied object (nothing can be computed from it)
-	CTop                // unknown
+	CBot    CKind = iota // not (yet) reached
+	CConst               // a constant of basic type
+	CNil                 // the nil value of a pointer/interface/slice/map/func type
+	CType                // a non-nil interface value whose dynamic type is T (contents unknown)
+	CTuple               // multiple results
+	CSym                 // an opaque symbol standing for a caller-supplied object (nothing can be computed from it)
+	CPtr                 // the address of a local struct variable (F < 0) or of its field F
+	CStruct              // a struct value, field by field
+	CTop                 // unknown
 )
 
 // CVal is an abstract value.
@@ -35,6 +37,8 @@ type CVal struct {
 	T   types.Type
 	Tup []CVal
 	S   string
+	A   *ssa.Alloc
+	F   int
 }
 
 var (
@@ -61,6 +65,14 @@ func (v CVal) String() string {
 		return "dyn(" + TypeShort(v.T) + ")"
 	case CSym:
 		return "sym(" + v.S + ")"
+	case CPtr:
+		return fmt.Sprintf("&%s.%d", v.A.Name(), v.F)
+	case CStruct:
+		var ps []string
+		for _, e := range v.Tup {
+			ps = append(ps, e.String())
+		}
+		return "{" + strings.Join(ps, ", ") + "}"
 	case CTuple:
 		var ps []string
 		for _, e := range v.Tup {
@@ -103,7 +115,9 @@ func (a CVal) eq(b CVal) bool {
 		return types.Identical(a.T, b.T)
 	case CSym:
 		return a.S == b.S
-	case CTuple:
+	case CPtr:
+		return a.A == b.A && a.F == b.F
+	case CTuple, CStruct:
 		if len(a.Tup) != len(b.Tup) {
 			return false
 		}
@@ -128,6 +142,12 @@ func meet(a, b CVal) CVal {
 			out[i] = meet(a.Tup[i], b.Tup[i])
 		}
 		return TupleV(out...)
+	case a.K == CStruct && b.K == CStruct && len(a.Tup) == len(b.Tup):
+		out := make([]CVal, len(a.Tup))
+		for i := range a.Tup {
+			out[i] = meet(a.Tup[i], b.Tup[i])
+		}
+		return CVal{K: CStruct, Tup: out}
 	case a.eq(b):
 		return a
 	}
@@ -150,7 +170,138 @@ type ConstEval struct {
 
 	prog  *ssa.Program
 	stack []*ssa.Function
+
+	// local struct variables, field by field (flow-insensitive meet of the stores that are reached)
+	fields  map[*ssa.Alloc][]CVal
+	zeroed  map[*ssa.Alloc]map[int]bool // fields read without any reached store: they hold their zero value
+	missing map[*ssa.Alloc]map[int]bool
+	version int
 }
+
+func structOf(a *ssa.Alloc) *types.Struct {
+	pt, ok := a.Type().Underlying().(*types.Pointer)
+	if !ok {
+		return nil
+	}
+	st, _ := pt.Elem().Underlying().(*types.Struct)
+	if st == nil || st.NumFields() > 24 {
+		return nil
+	}
+	return st
+}
+
+func zeroCV(t types.Type) CVal {
+	switch u := t.Underlying().(type) {
+	case *types.Basic:
+		switch {
+		case u.Info()&types.IsBoolean != 0:
+			return ConstV(constant.MakeBool(false))
+		case u.Info()&types.IsString != 0:
+			return ConstV(constant.MakeString(""))
+		case u.Info()&types.IsNumeric != 0:
+			return IntV(0)
+		}
+	case *types.Pointer, *types.Interface, *types.Slice, *types.Map, *types.Signature, *types.Chan:
+		return NilV()
+	}
+	return Top
+}
+
+func (e *ConstEval) fieldVals(a *ssa.Alloc) []CVal {
+	if e.fields == nil {
+		e.fields = map[*ssa.Alloc][]CVal{}
+	}
+	fs, ok := e.fields[a]
+	if !ok {
+		st := structOf(a)
+		if st == nil {
+			return nil
+		}
+		fs = make([]CVal, st.NumFields())
+		for i := range fs {
+			fs[i] = Bot
+		}
+		e.fields[a] = fs
+	}
+	return fs
+}
+
+func (e *ConstEval) storeField(a *ssa.Alloc, f int, v CVal) {
+	fs := e.fieldVals(a)
+	if fs == nil || f >= len(fs) || v.K == CBot {
+		return
+	}
+	m := meet(fs[f], v)
+	if !m.eq(fs[f]) {
+		fs[f] = m
+		e.version++
+	}
+}
+
+func (e *ConstEval) loadField(a *ssa.Alloc, f int) CVal {
+	fs := e.fieldVals(a)
+	if fs == nil || f >= len(fs) {
+		return Top
+	}
+	v := fs[f]
+	if e.zeroed[a][f] {
+		v = meet(v, zeroCV(structOf(a).Field(f).Type()))
+	} else if v.K == CBot {
+		if e.missing == nil {
+			e.missing = map[*ssa.Alloc]map[int]bool{}
+		}
+		if e.missing[a] == nil {
+			e.missing[a] = map[int]bool{}
+		}
+		e.missing[a][f] = true
+	}
+	return v
+}
+
+// escape: the variable is handed to code that is not evaluated; every field becomes unknown.
+func (e *ConstEval) escape(v CVal) {
+	if v.K != CPtr {
+		return
+	}
+	fs := e.fieldVals(v.A)
+	for i := range fs {
+		if v.F < 0 || v.F == i {
+			e.storeField(v.A, i, Top)
+		}
+	}
+}
+
+// RunStable is Run repeated until no field of a local struct is read before any store to it is reached: such
+// fields are then given their zero value (each round can only lower values, so this terminates).
+func (e *ConstEval) RunStable(fn *ssa.Function, args []CVal) *CEResult {
+	var res *CEResult
+	for round := 0; round < 6; round++ {
+		e.missing = nil
+		e.Trace = nil
+		res = e.Run(fn, args)
+		added := false
+		for a, fs := range e.missing {
+			for f := range fs {
+				if e.fields[a][f].K == CBot && !e.zeroed[a][f] {
+					if e.zeroed == nil {
+						e.zeroed = map[*ssa.Alloc]map[int]bool{}
+					}
+					if e.zeroed[a] == nil {
+						e.zeroed[a] = map[int]bool{}
+					}
+					e.zeroed[a][f] = true
+					added = true
+				}
+			}
+		}
+		if !added {
+			break
+		}
+	}
+	return res
+}
+
+var _ = fmt.Sprint
 
 // CEResult is one evaluated activation.
 type CEResult struct {
@@ -292,6 +443,7 @@ func (e *ConstEval) Run(fn *ssa.Function, args []CVal) *CEResult {
 	}
 	for iter := 0; iter < 64; iter++ {
 		changed := false
+		v0 := e.version
 		for _, b := range fn.Blocks {
 			if !res.Reach[b] {
 				continue
@@ -342,12 +494,29 @@ func (e *ConstEval) Run(fn *ssa.Function, args []CVal) *CEResult {
 					if !res.Reach[b.Succs[0]] {
 						res.Reach[b.Succs[0]], changed = true, true
 					}
+				case *ssa.Store:
+					if a := res.Of(x.Addr); a.K == CPtr {
+						v := res.Of(x.Val)
+						switch {
+						case a.F >= 0:
+							e.storeField(a.A, a.F, v)
+						case v.K == CStruct:
+							for i, fv := range v.Tup {
+								e.storeField(a.A, i, fv)
+							}
+						case v.K != CBot:
+							e.escape(a)
+						}
+					}
 				case ssa.Value:
 					if set(x, e.transfer(fn, res, x)) {
 						changed = true
 					}
 				}
 			}
+		}
+		if e.version != v0 {
+			changed = true
 		}
 		if !changed {
 			break
@@ -400,12 +569,46 @@ func (e *ConstEval) transfer(fn *ssa.Function, res *CEResult, v ssa.Value) CVal 
 		}
 	}
 	switch x := v.(type) {
+	case *ssa.Alloc:
+		if structOf(x) != nil {
+			return CVal{K: CPtr, A: x, F: -1}
+		}
+		return Top
+	case *ssa.FieldAddr:
+		a := res.Of(x.X)
+		if a.K == CBot {
+			return Bot
+		}
+		if a.K == CPtr && a.F < 0 {
+			return CVal{K: CPtr, A: a.A, F: x.Field}
+		}
+		return Top
+	case *ssa.Field:
+		a := res.Of(x.X)
+		if a.K == CBot {
+			return Bot
+		}
+		if a.K == CStruct && x.Field < len(a.Tup) {
+			return a.Tup[x.Field]
+		}
+		return Top
 	case *ssa.BinOp:
 		return foldBin(x, res.Of(x.X), res.Of(x.Y))
 	case *ssa.UnOp:
 		a := res.Of(x.X)
 		if a.K == CBot {
 			return Bot
+		}
+		if x.Op == token.MUL && a.K == CPtr {
+			if a.F >= 0 {
+				return e.loadField(a.A, a.F)
+			}
+			fs := e.fieldVals(a.A)
+			out := make([]CVal, len(fs))
+			for i := range fs {
+				out[i] = e.loadField(a.A, i)
+			}
+			return CVal{K: CStruct, Tup: out}
 		}
 		if x.Op == token.MUL || x.Op == token.ARROW || a.K != CConst {
 			return Top
@@ -574,19 +777,25 @@ func (e *ConstEval) call(fn *ssa.Function, res *CEResult, c *ssa.Call, args []CV
 			callee, _ = mc.Fn.(*ssa.Function)
 		}
 	}
-	if callee == nil || len(callee.Blocks) == 0 || len(e.stack) >= e.MaxDepth {
+	esc := func() CVal {
+		for _, a := range args {
+			e.escape(a)
+		}
 		return Top
+	}
+	if callee == nil || len(callee.Blocks) == 0 || len(e.stack) >= e.MaxDepth {
+		return esc()
 	}
 	if e.InlineArgs != nil {
 		if !e.InlineArgs(callee, args) {
-			return Top
+			return esc()
 		}
 	} else if e.Inline != nil && !e.Inline(callee) {
-		return Top
+		return esc()
 	}
 	for _, s := range e.stack {
 		if s == callee {
-			return Top
+			return esc()
 		}
 	}
 	sub := e.Run(callee, args)
